@@ -50,8 +50,9 @@ def wrap(ctx):
             p = t["callee"].get("path") or ""
             if last_seg(p) == "from_raw_fd":
                 sites.append((f.name, bb, (t["callee"].get("self_ty") or {}).get("s")))
+    from .util import writer_roots
     conn_sites = [s for s in sites if s[0].startswith(conn.P)]
-    ctx.ob("R12.1", "single-from_raw_fd", len(conn_sites) == 1 and conn_sites[0][2] == "std::fs::File" and conn_sites[0][0].startswith(conn.RECV), "File::from_raw_fd sites in the connection: %s" % conn_sites)
+    ctx.ob("R12.1", "single-from_raw_fd", len(conn_sites) == 1 and conn_sites[0][2] == "std::fs::File" and all(r.startswith(conn.RECV) for r in writer_roots(facts, conn_sites[0][0])), "File::from_raw_fd sites in the connection: %s" % conn_sites)
     others = [s for s in sites if not s[0].startswith(conn.P) and s[2] == "std::fs::File"]
     ctx.ob("R12.1", "no-other-file-from_raw_fd", not others, "other File::from_raw_fd sites: %s" % others)
     scm = facts.const_int("connection::SCM_MAX_FD")
@@ -240,6 +241,7 @@ def move(ctx):
 
 
 def apis(ctx):
+    from .util import writer_roots
     n = 0
     for f in ctx.facts.fns.values():
         if f.d["span"]["file"] not in ("src/connection.rs", "src/request.rs"):
@@ -248,7 +250,7 @@ def apis(ctx):
             n += 1
             p = t["callee"].get("path") or ""
             seg = last_seg(p)
-            if seg in BAD and not (seg == "from_raw_fd" and f.name.startswith(conn.RECV)):
+            if seg in BAD and not (seg == "from_raw_fd" and all(r.startswith(conn.RECV) for r in writer_roots(ctx.facts, f.name))):
                 ctx.fail("R12.4", "api|%s|%s" % (f.name, seg), "%s calls %s: a received descriptor could be duplicated, leaked or re-wrapped" % (f.name, p), f.loc(bb))
             if "ManuallyDrop" in p:
                 ctx.fail("R12.4", "api|%s|ManuallyDrop" % f.name, "%s uses ManuallyDrop" % f.name, f.loc(bb))
